@@ -5,7 +5,8 @@ specs/text/StrOps.tla (string built-ins), LangValues.tla.
 R (spec -> code): TLC enumerates every program of several bounded grammars (LangGen profiles
 `stmt`, `fn`, `str`; GenExpr: every well-typed expression to depth 2 over all ten binary and two
 unary operators with an effectful call to observe short-circuit; GenBuiltin: every documented
-method over a small argument domain; GenTemplate: placeholders next to escapes), runs each on the
+method over a small argument domain; GenOrder: every multi-operand construct with operands that print
+their tag, so that left-to-right evaluation is observed; GenTemplate: placeholders next to escapes), runs each on the
 reference machine and prints program + reference result; each is rendered with MINIMAL
 parentheses and run through the real pipeline without frame arena and plan (the base
 configuration; frame/plan deviations belong to C02/C03).  Printed values, the ending (normal or
@@ -26,6 +27,7 @@ def profiles(tier):
     return [
         ("GenExpr", "lang/GenExpr.cfg", {"EXPRSIZE": 0 if q else 1}, 1),
         ("GenBuiltin", "lang/GenBuiltin.cfg", {}, 0),
+        ("GenOrder", "lang/GenOrder.cfg", {}, 1),
         ("GenTemplate", "lang/GenTemplate.cfg", {}, 0),
         ("MCGenStmt", "lang/MCGen.cfg", {"MAXSTMTS": 4 if q else 5, "MAXDEPTH": 4, "EVENTS": 1}, 1),
         ("MCGenFn", "lang/MCGen.cfg", {"MAXSTMTS": 4 if q else 5, "MAXDEPTH": 3, "EVENTS": 1}, 1),
